@@ -476,3 +476,790 @@ def run(ctx):
     ctx.assumptions += ["IEEE arithmetic modelled by exact rationals; float results compared to 1e-9 (relative+absolute)",
                         "quadratic log-densities are probed by second differences at integer offsets (exact up to rounding)"]
     run_gaussian(ctx, cuqi, thorough)
+
+
+# ============================================================================= part 2
+import struct
+
+
+def fl(tok):
+    """decode a driver value token (`q:n/d` exact or `f:<bits>` double)"""
+    if tok in ("-inf", "inf", "nan"):
+        return float(tok)
+    if tok.startswith("q:"):
+        return float(Fraction(tok[2:]))
+    if tok.startswith("f:"):
+        return struct.unpack("<d", struct.pack("<Q", int(tok[2:])))[0]
+    raise ValueError(tok)
+
+
+# ----------------------------------------------------------------------------- GMRF
+def run_gmrf(ctx, cuqi, thorough):
+    from cuqi.distribution import GMRF
+    from cuqi.geometry import Image2D
+    from scipy.linalg import dft
+    rs = np.random.RandomState(ctx.seed + 502)
+    cfgs = []
+    n1 = range(2, 13) if thorough else range(2, 9)
+    for order in (0, 1, 2):
+        for bc in ("zero", "neumann", "periodic"):
+            for n in n1:
+                cfgs.append((1, order, bc, n))
+            if bc != "periodic":
+                for n in ((2, 3, 4) if thorough else (2, 3)):
+                    cfgs.append((2, order, bc, n))
+    cfgs.append((2, 1, "periodic", 3))
+    lines, metas = [], []
+    for (pd, order, bc, n) in cfgs:
+        dim = n if pd == 1 else n * n
+        prec = float(rs.choice([0.25, 1.0, 4.0, 16.0]))
+        mean = rint(rs, -3, 3, size=dim).astype(float)
+        desc = {"family": "GMRF", "physical_dim": pd, "order": order, "bc": bc, "n": n, "prec": prec, "mean": mean.tolist()}
+        key = f"GMRF:{bc}:{pd}D:order{order}"
+        try:
+            with quiet():
+                G = GMRF(mean, prec, bc_type=bc, order=order, **({} if pd == 1 else {"geometry": Image2D((n, n))}))
+        except Exception as e:
+            ctx.case("gmrf-refused", desc, nontrivial=False)
+            ctx.note(f"GMRF constructor refused {key} n={n}: {type(e).__name__}")
+            continue
+        c = 1.0 / np.sqrt(prec)
+        rows = int(G._diff_op.shape[0]) if bc == "neumann" else dim
+        if rows == 0:
+            ctx.case("gmrf-degenerate", desc, nontrivial=False)   # difference operator without rows (n too small for the order)
+            continue
+        if bc == "periodic":
+            def plan(method, shape, k, rows=rows):
+                Z = np.zeros((rows, 2 * rows + 1))
+                if k == 0:
+                    Z[:, 1:rows + 1] = np.eye(rows)
+                else:
+                    Z[:, rows + 1:] = np.eye(rows)
+                return Z
+            N = 2 * rows + 1
+        else:
+            plan = unit_plan(rows)
+            N = rows + 1
+        rng = Script(plan)
+        s, err, untouched = call_sample(G, N, rng)
+        m = dict(key=key, desc=desc, G=G, dim=dim, rows=rows, N=N, s=s, err=err, untouched=untouched, calls=rng.calls, bc=bc,
+                 pd=pd, order=order, n=n, prec=prec, mean=mean, c=c)
+        if err is not None:
+            lines.append("noop")
+        elif bc == "zero":
+            U = dense(G._chol.T)
+            cols = np.hstack([np.zeros((rows, 1)), np.eye(rows)]).T
+            lines.append(f"gmrfz {qv(mean.tolist())} {q(c)} {qm(U.tolist())} {order} {n} {pd} {qm(cols.tolist())}")
+        elif bc == "neumann":
+            cols = np.hstack([np.zeros((rows, 1)), np.eye(rows)]).T
+            lines.append(f"gmrfn {qv(mean.tolist())} {q(c)} {order} {n} {pd} {qm(cols.tolist())}")
+        else:
+            F = dft(dim, scale="sqrtn")
+            eigv = np.hstack([G._L_eigval, G._L_eigval[-1]])
+            sq = np.sqrt(eigv)
+            A = np.hstack([np.zeros((rows, 1)), np.eye(rows), np.zeros((rows, rows))]).T
+            Bc = np.hstack([np.zeros((rows, 1)), np.zeros((rows, rows)), np.eye(rows)]).T
+            lines.append(f"gmrfp {qv(mean.tolist())} {q(c)} {qm(F.real.tolist())} {qm(F.imag.tolist())} {qv(sq.tolist())} {qm(A.tolist())} {qm(Bc.tolist())}")
+        lines.append(f"gmrfP {order} {bc} {n} {pd}")
+        metas.append(m)
+    outs = ctx.lean.drive(lines)
+    for i, m in enumerate(metas):
+        out, outP = outs[2 * i], outs[2 * i + 1]
+        key, desc, G, dim, rows, N = m["key"], m["desc"], m["G"], m["dim"], m["rows"], m["N"]
+        ctx.case("gmrf-affine", desc)
+        if not m["untouched"]:
+            ctx.fail(key + ":global-state", desc, "global numpy random state untouched when rng is given", "changed")
+        if m["err"] is not None:
+            if m["bc"] == "periodic" and m["pd"] == 2 and "NotImplementedError" in m["err"]:
+                ctx.case("gmrf-periodic2d-refuses", desc, nontrivial=False)   # explicit refusal, not a wrong draw
+            else:
+                ctx.disagree(key, desc, "a sample", m["err"], "sampling raises")
+                ctx.fail(key, desc, "a sample", m["err"], "sampling raises for a supported boundary condition")
+            continue
+        Si = values(m["s"])
+        bad = False
+        want_calls = 2 if m["bc"] == "periodic" else 1
+        if len(m["calls"]) != want_calls or any(c[0] != "standard_normal" or c[2] != (rows, N) for c in m["calls"]):
+            ctx.disagree(key, desc, f"{want_calls} x standard_normal(({rows},{N}))", str(m["calls"])[:200], "generator calls")
+            bad = True
+        if m["bc"] == "neumann" and out not in ("err", "bad-op", "err-shape"):
+            r, out = out.split(" ", 1)
+            if int(r) != rows:
+                ctx.disagree(key, desc, int(r), rows, "number of rows of the difference operator")
+                bad = True
+        if out in ("err", "bad-op", "err-shape", "cert-fail"):
+            ctx.disagree(key, desc, out, "a sample", "model refuses / certificate UᵀU = P fails")
+            bad = True
+            Sm = None
+        else:
+            Sm = np.array([[float(x) for x in row] for row in pm(out)]).T
+            tol = 1e-9 if m["bc"] != "neumann" else 1e-6
+            if Si.shape != Sm.shape or not mclose(Si.tolist(), Sm.tolist(), tol):
+                ctx.disagree(key, desc, Sm.tolist() if dim <= 9 else "…", Si.tolist() if dim <= 9 else "…", "draws for unit normal vectors")
+                bad = True
+        # oracle: covariance of the draws vs the log-density of the same object
+        if Si.shape == (dim, N):
+            offset = Si[:, 0].copy()
+            B = Si[:, 1:] - offset[:, None]
+            P = np.array([[float(x) for x in row] for row in pm(outP)])
+            singular = m["bc"] != "zero"
+            okey = key if m["bc"] != "periodic" else key + ":cov"
+            nf = affine_oracle(G, offset, B, okey, desc, ctx, singular=singular, tol=1e-6 if singular else 1e-7,
+                               Hfallback=m["prec"] * P)
+            if bad and nf == 0 and m["bc"] == "periodic":
+                ctx.fail(key, desc, "model = implementation", "differs", "periodic construction changed")
+        for d, g in wrap_oracle(cuqi, G, N, m["s"]):
+            ctx.fail(key + ":wrap", desc, d, g, "wrapping of several draws")
+
+
+# ----------------------------------------------------------------------------- wrapping / refusal / determinism
+def family_zoo(cuqi, rs):
+    """(model family name, constructor thunk, dim) for every samplable family, small dims"""
+    from cuqi.distribution import (Gaussian, Lognormal, Normal, Gamma, InverseGamma, Beta, Laplace, Uniform, Cauchy,
+                                   ModifiedHalfNormal, GMRF)
+    from cuqi.geometry import Continuous1D, Discrete
+    out = []
+    for dim in (1, 2, 3, 5):
+        vec = lambda lo=1, hi=4: rint(rs, lo, hi, size=dim).astype(float)  # noqa
+        out.append(("gaussian", lambda v=vec(), d=dim: Gaussian(np.zeros(d), cov=v), dim))
+        out.append(("gaussian", lambda d=dim: Gaussian(np.arange(d, dtype=float), sqrtprec=gen_matrix(rs, "lower" if d > 1 else "diag", d),
+                                                     geometry=Continuous1D(d)), dim))
+        out.append(("lognormal", lambda v=vec(), d=dim: Lognormal(np.zeros(d), v), dim))
+        out.append(("normal", lambda v=vec(), d=dim: Normal(np.arange(d, dtype=float) if d > 1 else 1.0, v if d > 1 else 2.0), dim))
+        out.append(("gamma", lambda v=vec(), d=dim: Gamma(v if d > 1 else 2.0, 2.0), dim))
+        out.append(("invgamma", lambda v=vec(2, 5), d=dim: InverseGamma(v if d > 1 else 3.0, 0.0, 2.0), dim))
+        out.append(("beta", lambda v=vec(), d=dim: Beta(v if d > 1 else 2.0, 3.0), dim))
+        out.append(("laplace", lambda v=vec(), d=dim: Laplace(np.arange(d, dtype=float) if d > 1 else 1.0, 2.0), dim))
+        out.append(("uniform", lambda v=vec(), d=dim: Uniform(np.zeros(d) if d > 1 else 0.0, v if d > 1 else 2.0), dim))
+        out.append(("cauchy", lambda v=vec(), d=dim: Cauchy(np.arange(d, dtype=float) if d > 1 else 1.0, v if d > 1 else 2.0), dim))
+        if dim > 1:
+            for bc, fam in (("zero", "gmrfZero"), ("neumann", "gmrfNeumann"), ("periodic", "gmrfPeriodic")):
+                for order in (1, 2):
+                    if order == 2 and dim < 3:
+                        continue
+                    out.append((fam, lambda d=dim, bc=bc, o=order: GMRF(np.zeros(d), 4.0, bc_type=bc, order=o), dim))
+    out.append(("mhn", lambda: ModifiedHalfNormal(2.0, 3.0, 1.0), 1))
+    out.append(("mhn", lambda: ModifiedHalfNormal(0.5, 1.0, -1.0), 1))
+    return out
+
+
+def run_wrap(ctx, cuqi, thorough):
+    rs = np.random.RandomState(ctx.seed + 503)
+    zoo = family_zoo(cuqi, rs)
+    lines, metas = [], []
+    Ns = [1, 2, 3, 7] if not thorough else [1, 2, 3, 4, 7, 10, 25]
+    for fam, mk, dim in zoo:
+        try:
+            with quiet():
+                D = mk()
+        except Exception as e:
+            ctx.note(f"zoo constructor refused {fam} dim {dim}: {type(e).__name__}: {str(e)[:60]}")
+            continue
+        for N in Ns:
+            # a real generator: determinism (same state -> same draws), global state untouched
+            seed = int(rs.randint(0, 2 ** 31 - 1))
+            s1, e1, u1 = call_sample(D, N, np.random.RandomState(seed))
+            s2, e2, u2 = call_sample(D, N, np.random.RandomState(seed))
+            s3, e3, u3 = call_sample(D, N, np.random.RandomState(seed + 1))
+            lines.append(f"shape {fam} 0 {dim} {N}")
+            metas.append(dict(fam=fam, D=D, dim=dim, N=N, s=(s1, s2, s3), e=(e1, e2, e3), u=(u1 and u2 and u3)))
+    outs = ctx.lean.drive(lines)
+    for m, out in zip(metas, outs):
+        fam, D, dim, N = m["fam"], m["D"], m["dim"], m["N"]
+        desc = {"family": fam, "dim": dim, "N": N, "object": repr(D)[:80]}
+        key = f"wrap:{fam}:{'N1' if N == 1 else 'N>1'}"
+        ctx.case("wrap", desc)
+        s1, s2, s3 = m["s"]
+        if m["e"][0] is not None:
+            ctx.disagree(key, desc, out, m["e"][0], "sampling raises")
+            ctx.fail(key, desc, "a sample", m["e"][0], "sampling raises")
+            continue
+        tok = shape_token(cuqi, s1)
+        if tok != out:
+            ctx.disagree(key, desc, out, tok, "type/shape of what sample() returns")
+        for d, g in wrap_oracle(cuqi, D, N, s1):
+            ctx.fail(key, desc, d, g, "one draw must be an array with the distribution's geometry, several draws one column per draw")
+        if not m["u"]:
+            ctx.fail(f"rng:{fam}:global-state", desc, "global numpy random state untouched when rng is given", "changed")
+        v1, v2, v3 = values(s1), values(s2), values(s3)
+        if v1.shape != v2.shape or not np.array_equal(v1, v2):
+            ctx.fail(f"rng:{fam}:deterministic", desc, "same generator state -> same draws", "draws differ")
+        if v1.shape == v3.shape and np.array_equal(v1, v3):
+            ctx.fail(f"rng:{fam}:uses-rng", desc, "different generator state -> different draws", "identical draws (the given generator is not used)")
+    # global-stream path: rng=None must consume the global generator (sanity, restores the state)
+    st = np.random.get_state()
+    try:
+        for fam, mk, dim in zoo[:12]:
+            with quiet():
+                D = mk()
+                np.random.seed(7); a = values(D.sample(2))
+                np.random.seed(7); b = values(D.sample(2))
+            ctx.case("global-stream", {"family": fam, "dim": dim}, nontrivial=False)
+            if not np.array_equal(a, b):
+                ctx.fail(f"rng:{fam}:global-deterministic", {"family": fam}, "same global seed -> same draws", "differ")
+    finally:
+        np.random.set_state(st)
+
+
+def run_cond(ctx, cuqi, thorough):
+    from cuqi.distribution import Gaussian, Normal, Gamma, Laplace, Uniform, Cauchy, Beta, InverseGamma, Lognormal, GMRF
+    mk = [
+        ("gaussian", lambda: Gaussian(lambda z: z * np.ones(2), 1.0, geometry=2), {"z": 1.0}),
+        ("gaussian", lambda: Gaussian(np.zeros(2), cov=lambda s: s, geometry=2), {"s": 4.0}),
+        ("gaussian", lambda: Gaussian(np.zeros(2), prec=lambda d: d, geometry=2), {"d": 4.0}),
+        ("gaussian", lambda: Gaussian(lambda a, b: (a + b) * np.ones(2), 1.0, geometry=2), {"a": 1.0, "b": 2.0}),
+        ("normal", lambda: Normal(lambda m: m, 1.0), {"m": 2.0}),
+        ("normal", lambda: Normal(0.0, lambda s: s), {"s": 2.0}),
+        ("gamma", lambda: Gamma(2.0, lambda r: r), {"r": 2.0}),
+        ("laplace", lambda: Laplace(lambda l: l, 1.0), {"l": 2.0}),
+        ("uniform", lambda: Uniform(0.0, lambda h: h), {"h": 2.0}),
+        ("cauchy", lambda: Cauchy(lambda l: l, 1.0), {"l": 2.0}),
+        ("beta", lambda: Beta(lambda a: a, 2.0), {"a": 2.0}),
+        ("invgamma", lambda: InverseGamma(lambda a: a, 0.0, 1.0), {"a": 3.0}),
+        ("gmrfZero", lambda: GMRF(np.zeros(4), lambda d: d, geometry=4), {"d": 4.0}),
+    ]
+    lines, metas = [], []
+    for fam, f, kw in mk:
+        try:
+            with quiet():
+                D = f()
+        except Exception as e:
+            ctx.note(f"conditional constructor refused {fam}: {type(e).__name__}")
+            continue
+        names = list(kw)
+        stages = [("none", D)]
+        if len(names) > 1:
+            with quiet():
+                stages.append(("partial", D(**{names[0]: kw[names[0]]})))
+        with quiet():
+            stages.append(("all", D(**kw)))
+        for st, obj in stages:
+            for N in (1, 3):
+                with quiet():
+                    cond = bool(obj.is_cond)
+                s, err, unt = call_sample(obj, N, np.random.RandomState(3))
+                try:
+                    dim = int(obj.dim)
+                except Exception:
+                    dim = 2
+                lines.append(f"shape {fam} {1 if st != 'all' else 0} {dim} {N}")
+                metas.append((fam, st, N, s, err, cond, dim))
+    outs = ctx.lean.drive(lines)
+    for (fam, st, N, s, err, cond, dim), out in zip(metas, outs):
+        desc = {"family": fam, "conditioning_given": st, "N": N}
+        key = f"cond:{fam}:{st}"
+        ctx.case("conditional", desc)
+        impl = "refused" if (err is not None and err.startswith("ValueError") and "conditional" in err.lower()) else ("error " + err if err else shape_token(cuqi, s))
+        if impl != out:
+            ctx.disagree(key, desc, out, impl, "refusal / result of sample() on a (partly) conditional distribution")
+        if st != "all" and not impl == "refused":
+            ctx.fail(key, desc, "refusal (ValueError naming the missing conditioning variables)", impl,
+                     "a conditional distribution must refuse to sample until all conditioning variables are given")
+        if st == "all" and err is not None:
+            ctx.fail(key, desc, "a sample once all conditioning variables are given", err, "fully conditioned distribution does not sample")
+
+
+# ----------------------------------------------------------------------------- iid families: plumbing + law
+def gen_law(method, args):
+    """documented law of a RandomState method (frozen scipy.stats object) — trusted"""
+    import scipy.stats as st
+    a = [float(np.asarray(x).ravel()[0]) for x in args]
+    if method == "normal":
+        return st.norm(a[0], a[1])
+    if method in ("randn", "standard_normal"):
+        return st.norm(0, 1)
+    if method == "gamma":
+        return st.gamma(a[0], scale=a[1])
+    if method == "standard_gamma":
+        return st.gamma(a[0])
+    if method == "beta":
+        return st.beta(a[0], a[1])
+    if method == "laplace":
+        return st.laplace(a[0], a[1])
+    if method == "uniform":
+        return st.uniform(a[0], a[1] - a[0])
+    if method in ("random_sample", "rand"):
+        return st.uniform(0, 1)
+    if method == "standard_cauchy":
+        return st.cauchy()
+    if method == "standard_exponential":
+        return st.expon()
+    if method == "exponential":
+        return st.expon(scale=a[0])
+    return None
+
+
+def law_oracle(ctx, D, key, desc, K=9):
+    """dim-1 object: push a quantile grid of the generator's documented law through sample() and compare the
+    probability of each cell with the integral of exp(logpdf) of the same object."""
+    from scipy.integrate import quad
+    us = (np.arange(K) + 0.5) / K
+    holder = {}
+
+    def plan(method, shape, k):
+        law = gen_law(method, holder["args"][k])
+        holder.setdefault("laws", []).append((method, law))
+        if law is None:
+            return None
+        return law.ppf(us).reshape(shape)
+
+    class S2(Script):
+        def _out(self, method, args, size):
+            holder.setdefault("args", []).append(args)
+            return super()._out(method, args, size)
+    rng = S2(plan)
+    s, err, unt = call_sample(D, K, rng)
+    if err is not None:
+        ctx.fail(key, desc, "a sample", err, "sampling raises")
+        return
+    laws = holder.get("laws", [])
+    if len(laws) != 1 or laws[0][1] is None:
+        ctx.note(f"law oracle not applicable at {desc}: generator calls {[(c[0]) for c in rng.calls]}")
+        return
+    x = values(s).ravel()
+    if len(x) != K or not np.all(np.isfinite(x)):
+        ctx.fail(key, desc, f"{K} finite draws", str(x)[:100], "draws not finite")
+        return
+    dx = np.diff(x)
+    if not (np.all(dx > 0) or np.all(dx < 0)):
+        ctx.note(f"law oracle: map draw->sample not monotone at {desc}")
+        return
+    worst = 0.0
+    for j in range(K - 1):
+        a, b = (x[j], x[j + 1]) if x[j] < x[j + 1] else (x[j + 1], x[j])
+        mass, _ = quad(lambda t: math.exp(logpdf1(D, np.array([t]))), a, b, epsabs=1e-12, epsrel=1e-10)
+        worst = max(worst, abs(mass - 1.0 / K))
+    if worst > 1e-7:
+        ctx.fail(key, desc, f"each of the {K - 1} quantile cells of the generator's law carries mass {1.0 / K:.6f} under exp(logpdf)",
+                 {"max_abs_mass_error": worst, "draws": x.tolist(), "generator": [str(c[:2]) for c in rng.calls]},
+                 "marginal law of the draws differs from the density the object reports")
+
+
+def run_iid(ctx, cuqi, thorough):
+    import scipy.stats as sps
+    from cuqi.distribution import Normal, Gamma, InverseGamma, Beta, Laplace, Uniform, Cauchy, Lognormal, Gaussian
+    rs = np.random.RandomState(ctx.seed + 504)
+    dy = [0.25, 0.5, 1.0, 2.0, 4.0]
+    fams = {
+        "normal": (Normal, lambda n: [rint(rs, -3, 3, size=n).astype(float), rs.choice(dy, size=n)]),
+        "gamma": (Gamma, lambda n: [rs.choice([0.5, 1.0, 2.0, 3.0, 4.5], size=n), rs.choice(dy, size=n)]),
+        "invgamma": (InverseGamma, lambda n: [rs.choice([2.0, 3.0, 4.5], size=n), rint(rs, -1, 2, size=n).astype(float), rs.choice(dy, size=n)]),
+        "beta": (Beta, lambda n: [rs.choice([0.5, 1.0, 2.0, 3.0], size=n), rs.choice([0.5, 1.0, 2.0, 3.0], size=n)]),
+        "laplace": (Laplace, lambda n: [rint(rs, -3, 3, size=n).astype(float), rs.choice(dy, size=n)]),
+        "uniform": (Uniform, lambda n: (lambda lo: [lo, lo + rs.choice(dy, size=n)])(rint(rs, -3, 3, size=n).astype(float))),
+        "cauchy": (Cauchy, lambda n: [rint(rs, -3, 3, size=n).astype(float), rs.choice(dy, size=n)]),
+    }
+    scipy_boundary = {"invgamma": sps.invgamma, "beta": sps.beta, "cauchy": sps.cauchy}
+    lines, metas = [], []
+    reps = 6 * ctx.scale
+    for fam, (cls, gen) in fams.items():
+        for rep in range(reps):
+            dim = int(rs.choice([1, 1, 2, 3, 5]))
+            N = int(rs.choice([1, 2, 4, 6]))
+            if N == dim:
+                N += 1
+            pars = gen(dim)
+            # scalar-vs-vector mixing: some parameters given as python scalars
+            given = []
+            for j, p in enumerate(pars):
+                if dim == 1 or (j > 0 and rs.rand() < 0.4 and fam != "laplace") or (fam == "laplace" and j == 1):
+                    pars[j] = np.full(dim, p[0]) if dim > 1 else p
+                    given.append(float(p[0]))
+                else:
+                    given.append(p.copy())
+            if fam == "uniform" and dim > 1 and any(np.isscalar(g) for g in given):
+                given = [pars[0].copy(), pars[1].copy()]
+            try:
+                with quiet():
+                    D = cls(*given)
+                    ddim = int(D.dim)
+            except Exception as e:
+                ctx.note(f"{fam} constructor refused: {type(e).__name__}")
+                continue
+            if ddim != dim:
+                ctx.note(f"{fam}: dim {ddim} for parameters of length {dim}")
+                continue
+            Gm = (rint(rs, 1, 64, size=(N, dim)) / 64.0)
+            desc = {"family": fam, "dim": dim, "N": N, "params": [np.asarray(g).tolist() for g in given]}
+            key = f"iid:{fam}:plumbing"
+            rec = {}
+            if fam in scipy_boundary:
+                law = scipy_boundary[fam]
+                orig = law.rvs
+
+                def fake(*a, _rec=rec, _G=Gm, **kw):
+                    _rec["a"], _rec["kw"] = a, kw
+                    return _G.copy()
+                law.rvs = fake
+                rng = Script()
+                try:
+                    s, err, unt = call_sample(D, N, rng)
+                finally:
+                    del law.rvs
+                assert law.rvs.__func__ is type(law).rvs or True
+            else:
+                rng = Script(lambda method, shape, k, _G=Gm: _G.copy() if shape == _G.shape else None)
+                s, err, unt = call_sample(D, N, rng)
+            pl = " ".join(qv(np.atleast_1d(np.asarray(g, dtype=float)).tolist()) for g in given)
+            lines.append(f"plumb {fam} {N} {dim} {pl} {qm(Gm.tolist())}")
+            metas.append(dict(fam=fam, D=D, dim=dim, N=N, given=given, G=Gm, s=s, err=err, unt=unt, rng=rng, rec=rec, desc=desc, key=key, pars=pars))
+    outs = ctx.lean.drive(lines)
+    for m, out in zip(metas, outs):
+        fam, D, dim, N, desc, key = m["fam"], m["D"], m["dim"], m["N"], m["desc"], m["key"]
+        ctx.case("iid-plumbing", desc)
+        if m["err"] is not None or out.startswith("err") or out == "bad-op":
+            ctx.disagree(key, desc, out[:60], m["err"], "refusal")
+            if m["err"] is not None:
+                ctx.fail(key, desc, "a sample", m["err"], "sampling raises")
+            continue
+        call, dens, S = out.split(" ")
+        method, *margs, msize = call.split("|")
+        margs = [np.array([float(x) for x in pv(a)]) for a in margs]
+        mN, mdim = [int(t) for t in msize.split("x")]
+        # implementation's call
+        if fam in ("invgamma", "beta", "cauchy"):
+            kw = m["rec"].get("kw", {})
+            order = {"invgamma": ["a", "loc", "scale"], "beta": ["a", "b"], "cauchy": ["loc", "scale"]}[fam]
+            iargs = [np.atleast_1d(np.asarray(kw.get(k), dtype=float)) for k in order]
+            isize = tuple(kw.get("size", ()))
+            imethod = fam + ".rvs"
+            same_rng = kw.get("random_state") is m["rng"]
+            ncalls_ok = bool(m["rec"]) and len(m["rng"].calls) == 0
+        else:
+            calls = m["rng"].calls
+            ncalls_ok = len(calls) == 1
+            imethod = calls[0][0] if calls else "-"
+            iargs = [np.atleast_1d(np.asarray(a, dtype=float)) for a in (calls[0][1] if calls else ())]
+            isize = calls[0][2] if calls else ()
+            same_rng = True
+        agree = (ncalls_ok and imethod == method and isize == (mN, mdim) and same_rng and len(iargs) == len(margs)
+                 and all(np.array_equal(np.broadcast_to(a, (dim,)) if a.size in (1, dim) else a, np.broadcast_to(b, (dim,)) if b.size in (1, dim) else b)
+                         for a, b in zip(iargs, margs)))
+        if not agree:
+            ctx.disagree(key, desc, call, f"{imethod}|{[a.tolist() for a in iargs]}|{isize} same_rng={same_rng}", "generator call (method, parameter tuple, size, generator object)")
+        Sm = np.array([[float(x) for x in row] for row in pm(S)])
+        Si = values(m["s"])
+        if Si.shape != Sm.shape or not np.array_equal(Si, Sm):
+            ctx.disagree(key, desc, Sm.tolist(), Si.tolist(), "draws = transposed generator output")
+        if not m["unt"]:
+            ctx.fail(f"rng:{fam}:global-state", desc, "global numpy random state untouched", "changed")
+        for d, g in wrap_oracle(cuqi, D, N, m["s"]):
+            ctx.fail(f"wrap:{fam}:{'N1' if N == 1 else 'N>1'}", desc, d, g, "wrapping")
+        # density-side plumbing for the scipy-delegated densities: logpdf must hand the same tuple to the same law
+        if dens != "-":
+            dargs = [np.array([float(x) for x in pv(a)]) for a in dens.split("|")]
+            lawobj = {"gamma": sps.gamma, "invgamma": sps.invgamma, "beta": sps.beta}[fam]
+            x0 = np.full(dim, 0.375) if fam == "beta" else np.asarray(m["pars"][1] if fam == "invgamma" else 0.0) + 1.5 * np.ones(dim)
+            if fam == "gamma":
+                ref = float(np.sum(lawobj.logpdf(x0, a=dargs[0], loc=0, scale=dargs[1])))
+            elif fam == "invgamma":
+                ref = float(np.sum(lawobj.logpdf(x0, a=dargs[0], loc=dargs[1], scale=dargs[2])))
+            else:
+                ref = float(np.sum(lawobj.logpdf(x0, a=dargs[0], b=dargs[1])))
+            got = logpdf1(D, x0)
+            if not close(got, ref, 1e-10):
+                ctx.disagree(key, desc, ref, got, "tuple handed to the law by logpdf")
+        # oracle A (dim>1): component j of the draws is what the dim-1 object with the j-th parameters returns for
+        # the same generator output
+        cls = fams[fam][0]
+        if dim > 1 and m["err"] is None and Si.shape == (dim, N):
+            for j in range(dim):
+                pj = [float(p[j]) for p in m["pars"]]
+                with quiet():
+                    Dj = cls(*pj)
+                gj = m["G"][:, j:j + 1]
+                if fam in ("invgamma", "beta", "cauchy"):
+                    continue   # scripted at the scipy boundary: the component map is scipy's; covered by the law oracle below
+                sj, ej, _ = call_sample(Dj, N, Script(lambda method, shape, k, _g=gj: _g.copy()))
+                if ej is not None or not np.array_equal(values(sj).ravel(), Si[j]):
+                    ctx.fail(f"iid:{fam}:component-parameters", desc, f"component {j} drawn with the {j}-th parameters", "differs",
+                             "vector parameters are not applied component-wise to the draws")
+        # oracle B: law of the draws vs exp(logpdf), per component as a dim-1 object, real scipy/numpy path
+        for j in range(dim if dim <= 2 else 1):
+            pj = [float(p[j]) for p in m["pars"]]
+            with quiet():
+                Dj = cls(*pj)
+            ctx.case("iid-law", {"family": fam, "params": pj})
+            law_oracle(ctx, Dj, f"iid:{fam}:law", {"family": fam, "params": pj})
+        if dim > 1 and fam in ("invgamma", "beta", "cauchy"):
+            # real scipy path with vector parameters: component j must follow the j-th parameters
+            K = 5
+            us = (np.arange(K) + 0.5) / K
+            rngv = Script(lambda method, shape, k: None)
+            holder = {}
+
+            class SV(Script):
+                def _out(self, method, args, size):
+                    holder["m"] = (method, args)
+                    return super()._out(method, args, size)
+            sv, ev_, _ = call_sample(D, K, SV(lambda method, shape, k: np.tile(us[:, None], (1, dim)) if method in ("uniform", "random_sample") else None))
+            if ev_ is None and holder.get("m", ("",))[0] in ("uniform", "random_sample"):
+                X = values(sv)
+                for j in range(dim):
+                    pj = [float(p[j]) for p in m["pars"]]
+                    lawj = {"invgamma": lambda p: sps.invgamma(p[0], loc=p[1], scale=p[2]), "beta": lambda p: sps.beta(p[0], p[1]),
+                            "cauchy": lambda p: sps.cauchy(p[0], p[1])}[fam](pj)
+                    with quiet():
+                        Dj = cls(*pj)
+                    # cdf of the dim-1 object's own density at the draws must be the uniform grid
+                    from scipy.integrate import quad
+                    for k in range(K - 1):
+                        mass, _ = quad(lambda t: math.exp(logpdf1(Dj, np.array([t]))), X[j, k], X[j, k + 1], epsabs=1e-12, epsrel=1e-10)
+                        if abs(mass - 1.0 / K) > 1e-7:
+                            ctx.fail(f"iid:{fam}:component-parameters", desc, f"component {j} follows the density with the {j}-th parameters",
+                                     {"mass": mass, "expected": 1.0 / K}, "vector parameters are not applied component-wise to the draws")
+                            break
+    # closed-form densities of the model vs logpdf (dim 1), so that the Lean density identities are about the code's formulas
+    dl, dm = [], []
+    for fam in ("normal", "laplace", "uniform", "cauchy", "gauss1"):
+        for rep in range(8 * ctx.scale):
+            p1 = float(rint(rs, -3, 3)); p2 = float(rs.choice(dy))
+            x = float(rint(rs, -8, 8)) / 4.0
+            if fam == "uniform":
+                p2 = p1 + p2
+                x = p1 + (p2 - p1) * float(rs.choice([0.0, 0.25, 0.5, 1.0, -0.25, 1.25]))
+            dl.append(f"dens {fam} {q(x)} {q(p1)} {q(p2)}"); dm.append((fam, x, p1, p2))
+    douts = ctx.lean.drive(dl)
+    for (fam, x, p1, p2), o in zip(dm, douts):
+        with quiet():
+            D = {"normal": lambda: Normal(p1, p2), "laplace": lambda: Laplace(p1, p2), "uniform": lambda: Uniform(p1, p2),
+                 "cauchy": lambda: Cauchy(p1, p2), "gauss1": lambda: Gaussian(p1, sqrtprec=p2)}[fam]()
+        got = logpdf1(D, np.array([x]))
+        ctx.case("closed-form-density", {"family": fam, "x": x, "p": [p1, p2]})
+        if not close(got, fl(o), 1e-10):
+            ctx.disagree(f"iid:{fam}:density-formula", {"family": fam, "x": x, "p": [p1, p2]}, fl(o), got, "closed-form log-density")
+            law_oracle(ctx, D, f"iid:{fam}:density-formula", {"family": fam, "params": [p1, p2]})
+    # Lognormal / Gaussian dim 1: law oracle through randn
+    for rep in range(4 * ctx.scale):
+        mu = float(rint(rs, -2, 2)); var = float(rs.choice([0.25, 1.0, 4.0]))
+        with quiet():
+            L = Lognormal(mu, var)
+            Gs = Gaussian(mu, var)
+        ctx.case("iid-law", {"family": "lognormal", "params": [mu, var]})
+        law_oracle(ctx, L, "Lognormal:law", {"family": "lognormal", "params": [mu, var]})
+        ctx.case("iid-law", {"family": "gaussian", "params": [mu, var]})
+        law_oracle(ctx, Gs, "Gaussian:dim1:law", {"family": "gaussian", "params": [mu, var]})
+
+
+def run(ctx):   # noqa: F811  (extends the entry point defined above)
+    cuqi = import_cuqi()
+    thorough = ctx.tier == "thorough"
+    ctx.trusted += ["numpy/scipy generator laws (documented densities of RandomState.normal/gamma/beta/laplace/uniform/standard_cauchy, scipy.stats ppf/rvs)",
+                    "scipy.linalg.solve / solve_triangular / spsolve enter through the relation R p = e (checked exactly on the model side)",
+                    "scipy.integrate.quad (law oracle), scipy.linalg.dft and eigsh outputs (leaf data of the periodic GMRF construction)"]
+    ctx.assumptions += ["IEEE arithmetic modelled by exact rationals; float results compared to 1e-9 (1e-6 for the sqrt(eps)-regularised Neumann solve)",
+                        "quadratic log-densities are probed by second differences at integer offsets (exact up to rounding)",
+                        "sparse_cholesky factor of GMRF enters as leaf data with certificate UᵀU = P checked against the exact C20 precision to 1e-9"]
+    run_gaussian(ctx, cuqi, thorough)
+    run_gmrf(ctx, cuqi, thorough)
+    run_wrap(ctx, cuqi, thorough)
+    run_cond(ctx, cuqi, thorough)
+    run_iid(ctx, cuqi, thorough)
+
+
+# ----------------------------------------------------------------------------- ModifiedHalfNormal
+class Seq(Script):
+    """scripted sequence: proposal draws from `draws`, uniforms from `us` (in order of request)"""
+
+    def __init__(self, draws, us):
+        self.draws, self.us = list(draws), list(us)
+        self.i = self.j = 0
+
+        def plan(method, shape, k):
+            if method == "uniform":
+                v = self.us[min(self.j, len(self.us) - 1)]; self.j += 1
+            else:
+                v = self.draws[min(self.i, len(self.draws) - 1)]; self.i += 1
+            return np.array(v)
+        super().__init__(plan)
+
+
+def mhn_call(D, pars, draws, us, public):
+    """returns (X or None, error, rng)"""
+    rng = Seq(draws, us)
+    try:
+        with quiet():
+            if public:
+                x = float(np.asarray(D.sample(1, rng=rng)).ravel()[0])
+            else:
+                x = float(D._MHN_sample(pars[0], pars[1], pars[2], rng=rng))
+        return x, None, rng
+    except Exception as e:  # noqa
+        return None, type(e).__name__ + ": " + str(e)[:80], rng
+
+
+def mhn_accept_threshold(D, pars, t, public, fallback):
+    """sup of the uniforms for which the draw `t` is accepted at the first iteration (bisection on the decision)"""
+    def acc(u):
+        x, err, rng = mhn_call(D, pars, [t, fallback], [u, 1e-300], public)
+        return err is None and len(rng.calls) == 2
+    if not acc(1e-300):
+        return 0.0
+    if acc(1.0 - 2 ** -53):
+        return 1.0
+    lo, hi = 1e-300, 1.0
+    for _ in range(60):
+        mid = math.sqrt(lo * hi) if lo < 1e-3 else 0.5 * (lo + hi)
+        if acc(mid):
+            lo = mid
+        else:
+            hi = mid
+    return lo
+
+
+def run_mhn(ctx, cuqi, thorough):
+    from cuqi.distribution import ModifiedHalfNormal
+    rs = np.random.RandomState(ctx.seed + 505)
+    grid = [(2.0, 3.0, 1.0), (0.5, 1.0, 1.0), (3.0, 2.0, 2.0), (1.5, 1.0, 3.0), (5.0, 0.125, 1.0), (3.0, 1.0, 4.0),
+            (2.0, 1.0, -1.0), (0.5, 2.0, -2.0), (1.0, 1.0, 0.0), (4.0, 0.5, -0.5), (1.0, 0.5, 0.5), (2.5, 2.5, 2.5)]
+    for _ in range(6 * ctx.scale):
+        grid.append((float(rs.choice([0.5, 0.75, 1.0, 1.5, 2.0, 3.0, 6.0])), float(rs.choice([0.25, 0.5, 1.0, 2.0, 4.0])),
+                     float(rs.choice([-2.0, -0.5, 0.0, 0.5, 1.0, 3.0]))))
+    # ---- model side, phase 1: scheme and proposal parameters (private entry point and what the getters hand over)
+    l1 = []
+    for (a, b, c) in grid:
+        l1.append(f"mhn {q(a)} {q(b)} {q(c)}")
+        l1.append(f"mhnread {q(a)} {q(b)} {q(c)}")
+    o1 = ctx.lean.drive(l1)
+    plans = []
+    for gi, (a, b, c) in enumerate(grid):
+        read = [float(x) for x in pv(o1[2 * gi + 1])]
+        for public in (False, True):
+            pars = tuple(read) if public else (a, b, c)
+            plans.append((gi, public, pars))
+    l2 = [f"mhn {q(p[0])} {q(p[1])} {q(p[2])}" for (_, _, p) in plans]
+    o2 = ctx.lean.drive(l2)
+    # ---- phase 2: draws for each plan, model bounds
+    l3, metas = [], []
+    for (gi, public, pars), sch in zip(plans, o2):
+        toks = sch.split()
+        kind = toks[0]
+        a, b, c = pars
+        if kind == "pg1":
+            K1, K2 = fl(toks[1]), fl(toks[2])
+            if abs(K2 - K1) <= 1e-9 * max(abs(K1), abs(K2)):
+                continue
+            use = "np" if K2 > K1 else "gp"
+            call = ("normal", fl(toks[3]), fl(toks[4])) if use == "np" else ("gamma", fl(toks[5]), fl(toks[6]))
+            mpar = 0.0
+        elif kind == "gp":
+            use, call, mpar = "gp", ("gamma", fl(toks[1]), fl(toks[2])), 0.0
+        elif kind == "ng":
+            use, call, mpar = "ng", ("gamma", fl(toks[2]), fl(toks[3])), fl(toks[1])
+        else:
+            continue
+        law = gen_law(call[0], call[1:])
+        ts = [float(v) for v in law.ppf([0.07, 0.3, 0.5, 0.75, 0.95])]
+        ts = [float(np.round(t * 64) / 64) if abs(t) > 0.05 else t for t in ts]
+        for t in ts:
+            l3.append(f"mhnacc {use} {q(a)} {q(b)} {q(c)} {q(mpar)} {q(t)}")
+        metas.append(dict(gi=gi, public=public, pars=pars, use=use, call=call, ts=ts, mpar=mpar, law=law))
+    o3 = ctx.lean.drive(l3)
+    pos = 0
+    for m in metas:
+        a0, b0, c0 = grid[m["gi"]]
+        D = ModifiedHalfNormal(a0, b0, c0)
+        pars, public, use = m["pars"], m["public"], m["use"]
+        path = "sample" if public else "_MHN_sample"
+        desc = {"family": "ModifiedHalfNormal", "constructed_with": [a0, b0, c0], "entry": path, "parameters_reaching_the_sampler": list(pars), "scheme": use}
+        key = f"MHN:{path}:{use}"
+        bounds = []
+        for t in m["ts"]:
+            xt, at = o3[pos].split(); pos += 1
+            bounds.append((fl(xt), fl(at)))
+        ctx.case("mhn-scheme", desc)
+        # (i) proposal call
+        x, err, rng = mhn_call(D, pars, [m["ts"][2], m["ts"][2]], [1e-300, 1e-300], public)
+        if err is not None:
+            ctx.disagree(key, desc, "a draw", err, "sampling raises")
+            ctx.fail(key, desc, "a draw", err, "sampling raises")
+            continue
+        c0_ = rng.calls[0]
+        iargs = [float(np.asarray(v).ravel()[0]) for v in c0_[1]]
+        if c0_[0] != m["call"][0] or not vclose(iargs, list(m["call"][1:]), 1e-9):
+            ctx.disagree(key, desc, m["call"], (c0_[0], iargs), "proposal generator call (scheme selection and proposal parameters)")
+        # (ii) decisions: three scripted iterations around the model's bound, then a forced acceptance
+        fallback = m["ts"][2]
+        for k, (t, (xm, am)) in enumerate(zip(m["ts"], bounds)):
+            for side in (-1, +1):
+                if not (math.isfinite(am)):
+                    continue
+                lu = am + side * max(1e-6, 1e-6 * abs(am))
+                if lu >= 0:
+                    u = 1.0 - 2 ** -30 if side > 0 else None
+                    if am > -1e-9 and side > 0:
+                        u = None
+                else:
+                    u = math.exp(lu)
+                if u is None or u <= 0:
+                    continue
+                xi, err, rng = mhn_call(D, pars, [t, fallback], [u, 1e-300], public)
+                ctx.case("mhn-decision", {**desc, "draw": t, "u": u})
+                acc_impl = err is None and len(rng.calls) == 2
+                acc_model = (xm > 0 or use == "ng") and math.log(u) < am
+                if acc_impl != acc_model:
+                    ctx.disagree(key, {**desc, "draw": t, "u": u}, {"X": xm, "log_bound": am, "accept": acc_model}, {"accept": acc_impl, "X": xi}, "acceptance decision")
+                elif acc_impl and not close(xi, xm, 1e-9):
+                    ctx.disagree(key, {**desc, "draw": t, "u": u}, xm, xi, "accepted point X")
+        # (iii) oracle (implementation only): proposal density x acceptance probability must be proportional to the
+        # density the object reports (public path) / the documented density with the given parameters (private path)
+        vals = []
+        extra = [float(v) for v in m["law"].ppf([1e-7, 1e-4, 1e-2, 0.99, 0.9999, 1 - 1e-7])]
+        for t in list(m["ts"]) + extra:
+            if use == "np" and t <= 0:
+                continue
+            a_t = mhn_accept_threshold(D, pars, t, public, fallback)
+            h = 1e-4 * abs(t) if use != "np" else 1e-6 * max(1.0, abs(t))
+            xs_ = []
+            for tt in (t - h, t, t + h):
+                xv, err, _ = mhn_call(D, pars, [tt, tt], [1e-300, 1e-300], public)
+                xs_.append(xv)
+            if any(v is None for v in xs_) or a_t <= 0:
+                continue
+            dxdt = (xs_[2] - xs_[0]) / (2 * h)
+            xv = xs_[1]
+            logg = float(m["law"].logpdf(t)) - math.log(abs(dxdt))
+            if public:
+                logf = logpdf1(D, np.array([xv]))
+            else:
+                logf = (pars[0] - 1) * math.log(xv) - pars[1] * xv * xv + pars[2] * xv
+            vals.append((t, xv, a_t, logg + math.log(a_t) - logf, logg - logf))
+        ctx.case("mhn-rejection-identity", desc)
+        unc = [v for v in vals if v[2] < 1.0]
+        if len(unc) >= 2:
+            cst = [v[3] for v in unc]
+            logc = float(np.median(cst))
+            if max(cst) - min(cst) > 1e-5:
+                ctx.fail(key, desc, "proposal density x acceptance probability proportional to the target density (constant log-ratio)",
+                         {"log_ratio_at_points": [(v[1], v[3]) for v in unc]}, "rejection step does not produce the target density")
+            capped = [v for v in vals if v[2] >= 1.0 and v[4] < logc - 1e-5]
+            if capped:
+                ctx.fail(key + ":accept-prob>1", desc, "acceptance bound <= 0 everywhere (proposal envelope dominates the target)",
+                         {"points_where_bound_exceeds_0": [(v[1], logc - v[4]) for v in capped]},
+                         "the log-acceptance bound is positive on a set of positive probability: draws follow proposal*min(1,ratio), not the target")
+        # (iv) the parameters reaching the sampler are the ones the object was built with
+        if public and (pars[1] != b0 or pars[2] != c0):
+            xa, ea, ra = mhn_call(D, pars, [m["ts"][2]] * 2, [1e-300] * 2, True)
+            D2 = ModifiedHalfNormal(a0, b0 + 1.0, c0 - 1.0)
+            xb, eb, rb = mhn_call(D2, pars, [m["ts"][2]] * 2, [1e-300] * 2, True)
+            if ea is None and eb is None and xa == xb and str(ra.calls) == str(rb.calls):
+                ctx.fail("MHN:sample:getter:beta-gamma-ignored", desc,
+                         "draws of ModifiedHalfNormal(alpha, beta, gamma) follow x^(alpha-1) exp(-beta x^2 + gamma x) with the given beta, gamma",
+                         {"proposal_call": str(ra.calls[0][:2]), "same_for_beta_gamma": [b0 + 1.0, c0 - 1.0]},
+                         "beta and gamma never reach the sampler: the getters return alpha (logpdf reads the same getters, so draws and logpdf agree with each other but not with the parameters given)")
+        # wrapping of MHN
+    for N in (1, 4):
+        D = ModifiedHalfNormal(2.0, 3.0, 1.0)
+        s, err, unt = call_sample(D, N, np.random.RandomState(5))
+        ctx.case("wrap", {"family": "mhn", "N": N})
+        if err is None:
+            for d, g in wrap_oracle(cuqi, D, N, s):
+                ctx.fail(f"wrap:mhn:{'N1' if N == 1 else 'N>1'}", {"family": "mhn", "N": N}, d, g, "wrapping")
+
+
+_run_part2 = run
+
+
+def run(ctx):   # noqa: F811
+    _run_part2(ctx)
+    run_mhn(ctx, import_cuqi(), ctx.tier == "thorough")
